@@ -152,6 +152,10 @@ RULE = ("50% REST timeout cases: handler scripts of 0-6 actions (Set/Add/Del hea
         "engine chain); a client that cancels over a real connection while its handler is parked behind the FULL engine chain "
         "(499 observed in front of the chain, at the cancel); MaxConns(n) and BreakerHandler installed through Server.Use / "
         "WithMiddleware / WithMiddlewares + ToMiddleware (admission schedules over real HTTP; 60 failing requests in a row); "
+        "in an own driver process with Prometheus ENABLED (prometheus.StartAgent): raw request paths that are not valid UTF-8 once "
+        "percent-decoded (/user/%ff, /user/a%c0%afb, two variables) on routes with path variables, and ONE load case: 9000 "
+        "requests through one route while stat.SetReportWriter's writer blocks; ServerConfig.Timeout 50/150/1000 ms with a "
+        "handler overrunning by 2 s (ctx.Deadline() distance seen by the handler and reply time checked); "
         "rpc.NewServer(Timeout in {0, 100 ms, 60 s}, CpuThreshold in {0, 1000}) + Start with a context-ignoring handler parked "
         "300 ms; plus a fixed matrix: every panic-value kind x {nothing committed, header set, "
         "status committed, timeout=0 bypass} through Timeout+Recover and x {timeout interceptor in between, Timeout<=0} through "
@@ -642,6 +646,23 @@ def plumbing_matrix(rng):
     return out
 
 
+def prom_matrix(rng):
+    """own driver process with Prometheus metrics ENABLED: request paths that are not valid UTF-8 once percent-decoded on
+    routes with path variables (metric labels must come from the route pattern), and the stalled-report-writer load case"""
+    out = []
+    ok = [{"a": "set", "k": 0, "v": 1}, {"a": "wh", "c": 201}, {"a": "w", "b": "ok"}]
+    for route, paths in (("/user/:id", ["/user/%ff", "/user/a%c0%afb", "/user/%e4%b8%ad", "/user/abc"]),
+                         ("/user/:id/item/:item", ["/user/%ff/item/%fe%fd", "/user/x/item/%c0%af"])):
+        for rp in paths:
+            for g in (0, LARGE_MS):
+                acts = ok if rng.random() < 0.7 else [{"a": "panic", "pv": rng.choice(["string", "nil"])}]
+                out.append({"kind": "e2ec", "prom": True, "route": route, "reqpath": rp, "gtimeout_ms": g, "rtimeout_ms": 0,
+                            "verbose": rng.random() < 0.5, "hold_ms": 0, "k": 0, "full": True, "ref": True,
+                            "acts": [dict(a) for a in acts]})
+    out.append({"kind": "e2el", "prom": True, "total": 9000, "gtimeout_ms": 3000})
+    return out
+
+
 def gen_rsrv(rng, timeout=None, hold=None):
     """a unary call through a real started rpc server (rpc.NewServer + Start on loopback)"""
     timeout = rng.choice([0, RSMALL_MS, RSMALL_MS, LARGE_MS]) if timeout is None else timeout
@@ -706,7 +727,7 @@ def generate(rng, tier, n):
             cases.append(gen_rmulti(rng))
     cases += value_matrix(e2e=tier in ("thorough", "search"))
     cases += config_matrix(rng) + rsrv_matrix(rng) + status_matrix(rng) + panic_chain_matrix(rng) + g_matrix(rng)
-    cases += hdr_matrix(rng) + cancel_matrix(rng) + plumbing_matrix(rng)
+    cases += hdr_matrix(rng) + cancel_matrix(rng) + plumbing_matrix(rng) + prom_matrix(rng)
     for c in cases:             # a small adversarial-header dimension on the random error-path cases too
         if "hdrs" not in c and rng.random() < 0.3 and (
                 (c.get("kind") == "tw" and (_has_panic(c) or 0 < c["maxbytes"] < c["clen"])) or c.get("kind") == "conns"):
@@ -782,7 +803,8 @@ def as_tw(c):
 def drive(cases, tier):
     rest = [c for c in cases if c.get("kind") in ("tw", "conns", "multi", "g")]
     rpc = [c for c in cases if c.get("kind") in ("rpc", "rmulti")]
-    e2e = [c for c in cases if c.get("kind") in ("e2e", "e2em", "e2ec", "e2ecn")]
+    e2e = [c for c in cases if c.get("kind") in ("e2e", "e2em", "e2ec", "e2ecn") and not c.get("prom")]
+    prom = [c for c in cases if c.get("prom")]        # own process: Prometheus enabled, stat report writer stalled
     rsrv = [c for c in cases if c.get("kind") == "rsrv"]
     log = ""
     tag = {"quick": "", "thorough": "t", "search": "s"}.get(tier, tier[:1])
@@ -809,13 +831,19 @@ def drive(cases, tier):
     log += l4 or ""
     if obs_e2e is None:
         return None, log
+    obs_prom, l6 = vlib.run_driver(E2E_PKG, prom, name="C02" + tag + "p", timeout=DRIVER_TIMEOUT, run=REST_RUN,
+                                   env={"VERIF_C02_PROM": "1"}) if prom else ([], "")
+    log += l6 or ""
+    if obs_prom is None:
+        return None, log
     obs_rsrv, l5 = vlib.run_driver(RSRV_PKG, rsrv, name="C02" + tag + "v", timeout=DRIVER_TIMEOUT, run=REST_RUN) if rsrv else ([], "")
     log += l5 or ""
     if obs_rsrv is None:
         return None, log
     it_rpc, it_e2e, it_rest, it_rsrv = iter(obs_rpc), iter(obs_e2e), iter(obs_rest), iter(obs_rsrv)
     its = {"rpc": it_rpc, "rmulti": it_rpc, "e2e": it_e2e, "e2em": it_e2e, "e2ec": it_e2e, "e2ecn": it_e2e, "rsrv": it_rsrv}
-    return [next(its[c["kind"]]) if c.get("kind") in its else next(it_rest) for c in cases], log
+    it_prom = iter(obs_prom)
+    return [next(it_prom) if c.get("prom") else (next(its[c["kind"]]) if c.get("kind") in its else next(it_rest)) for c in cases], log
 
 
 # ------------------------------------------------------------------------------ encoding to Exec.case
@@ -872,6 +900,10 @@ def c_event(e):
 
 def encode(case, obs):
     kind = case.get("kind")
+    if kind == "e2el":
+        bad = "driver_panic" in obs or "error" in obs
+        return "CaseL (mklc %s %s %s %s %s %s)" % (cnat(case["total"]), cZ(case["gtimeout_ms"]), cnat(obs.get("answered", 0)),
+                                                  cnat(obs.get("bad", 0)), cZ(obs.get("max_ms", 0)), cbool(obs.get("hung", False) or bad))
     if kind == "e2ecn":
         if case["guard"] == "breaker":
             return "CaseB (mkbc %s %s %s %s)" % (cnat(obs.get("total", case["total"])), cnat(obs.get("failed", 0)),
@@ -1022,6 +1054,8 @@ def _has_panic(case):
 
 def nontrivial(case, obs):
     k = case.get("kind")
+    if k == "e2el":
+        return True
     if k == "e2ecn":
         return True
     if k == "g":
@@ -1046,6 +1080,11 @@ def bucket(case, obs):
     out = ["kind:" + k]
     for h in case.get("hdrs") or []:
         out.append("hdr:%s=%s" % (h["n"], h["kind"]))
+    if k == "e2el":
+        out.append("e2el.requests=%s" % case["total"])
+        return out
+    if case.get("reqpath"):
+        out.append("e2ec.raw-path:" + case["reqpath"])
     if k == "e2ecn":
         out.append("e2ecn.%s/%s" % (case["guard"], case["via"]))
         if case["guard"] == "breaker":
@@ -1140,6 +1179,9 @@ def bucket(case, obs):
 
 def explain(case, obs):
     k = case.get("kind")
+    if k == "e2el":
+        return ("with the stat report writer stalled, 9000 requests of an instant handler through one route of the engine chain must "
+                "all be answered by the handler within the route timeout: recording metrics must never block the request path")
     if k == "e2ecn":
         return ("a stateful guard installed through the public plumbing (Server.Use / WithMiddleware(s) + ToMiddleware; theorem "
                 "c02_limiter_state_is_shared): MaxConns(n) must turn away (503, handler not run) exactly the arrival that finds n "
